@@ -46,7 +46,7 @@ LEVEL_NOTE = ("Trusted: Lean kernel (propext, Classical.choice, Quot.sound), Mod
               "the model does (skip_ticks adds the remaining distance, play_tick does not count on a stopped player); the spec oracle skips those n, the correspondence compares them. "
               "Round 3: for Flat / FlatL / Loop1 tracks no hypothesis is left (the <100000 / <49000 events bound resp. the weight bound of Loop1 is a model artefact: a run of 100000 zero-length events would exhaust the model's step "
               "budget, the C++ has none); for tracks with nested loops, loop breaks, loops combined with a loop point, calls, drum mode or PLATFORM the alive/no-error hypothesis remains and is decided per case by evaluation "
-              "(correspondence + oracle). Seeks on non-fresh players are proved for settled states; the correspondence stream itself seeks fresh players only.")
+              "(correspondence + oracle). Seeks on non-fresh players are proved for settled states; since the `seekm` request the correspondence stream also seeks players that have played m+1 ticks (both real paths, the model, full state dumps and 24-tick futures).")
 RULE = ("valid tracks from the song grammar (loops with breaks, calls, drum-mode routines, loop point, absolute and relative channel commands, tempo/volume mode switches, platform "
         "commands) x every seek distance n in 1..min(length,40) plus boundary distances; non-trivial = contains loop/call/drum/segno; distinct by request text")
 EXPLANATION = "theorem over the model for all songs and n; correspondence on private-state dumps of both real paths; spec oracle = equality of the two real dumps and futures"
